@@ -91,6 +91,16 @@ func ShapeHash(fn *ssa.Function) string {
 					sb.WriteString(v.Name() + " = ")
 				}
 				sb.WriteString(line + "\n")
+				// go/ssa abbreviates long constants when printing: the full value is part of the shape
+				for _, op := range in.Operands(nil) {
+					if op == nil || *op == nil {
+						continue
+					}
+					if cv, ok := (*op).(*ssa.Const); ok && cv.Value != nil && len(cv.Value.ExactString()) > 16 {
+						ch := sha256.Sum256([]byte(cv.Value.ExactString()))
+						fmt.Fprintf(&sb, "  const %x\n", ch[:6])
+					}
+				}
 				if c, ok := in.(ssa.CallInstruction); ok {
 					if cal := c.Common().StaticCallee(); cal != nil && cal.Pkg != nil && cal.Pkg.Pkg != nil && strings.HasPrefix(cal.Pkg.Pkg.Path(), ModPath) {
 						callees = append(callees, cal)
